@@ -194,13 +194,15 @@ def run_model(runner, lines, shards=8):
     return res
 
 
-def run_rust(harness, lines, shards=8, timeout=600):
+def run_rust(harness, lines, shards=8, timeout=600, hangs_left=None):
     cl = [l for l in lines if not l.startswith('T ')]
     if not cl:
         return {}
     n = max(1, min(shards, len(cl) // 200 + 1))
     import threading
     outs = [None] * n
+    if hangs_left is None:
+        hangs_left = [6]        # per call: a change that makes every case hang is reported after a few of them
 
     def work(i):
         part = cl[i::n]
@@ -232,13 +234,19 @@ def run_rust(harness, lines, shards=8, timeout=600):
         if rc != 0:
             # the process died or hung in the case that was started last
             if started is not None:
-                res[started] = '%s %s' % (started, 'hang' if rc == 'timeout' else 'abort:%s' % rc)
+                res[started] = '%s %s' % (started, 'hang' if rc in ('timeout', 124) else 'abort:%s' % rc)
+                if rc in ('timeout', 124):
+                    hangs_left[0] -= 1
             # the cases after it were not run: re-run them in a fresh process
             ids = [l.split(' ')[1] for l in part]
             if started in ids:
                 rest = part[ids.index(started) + 1:]
-                if rest:
-                    res.update(run_rust(harness, rest, shards=1, timeout=timeout))
+                if rest and hangs_left[0] > 0:
+                    res.update(run_rust(harness, rest, shards=1, timeout=timeout, hangs_left=hangs_left))
+                elif rest:
+                    for l in rest:
+                        c = l.split(' ')[1]
+                        res[c] = '%s not-run:too-many-hangs' % c
     return res
 
 
